@@ -205,3 +205,43 @@ PROPS["C16"] = {
     "assumptions": ["PrivateKey::private_decrypt is replaced by c16_password::model_private_decrypt (arbitrary plaintext, size <= buffer)", "alloc::fmt::format returns an empty String", UTF8_STUB],
     "tiers": tiers("c16", quick_timeout=900, qbounds="plaintext buffer 4, 6, 8 bytes with nonce 0, 4, 2 bytes; unwind 18", tbounds="adds plaintext 12 bytes with nonce 8"),
 }
+
+PROPS["C25"] = {
+    "module": "c25_filter",
+    "level": MC,
+    "technique": "Kani/CBMC symbolic execution of DataChangeFilter::compare over symbolic samples (f64 / i32 values, status codes, two-valued timestamps), trigger and absolute deadband width, against the trigger/deadband specification",
+    "kernels": ["DataChangeFilter::compare", "DataChangeFilter::compare_value_option", "DataChangeFilter::compare_value", "DataChangeFilter::abs_compare", "Variant::as_f64"],
+    "explanation": "Two samples with symbolic finite Double values (thorough: all Int32 values), symbolic optional status codes, server timestamps from a two-element set, symbolic trigger and either no deadband or an absolute "
+                   "deadband of symbolic finite non-negative width: the sample is reported (compare == false) exactly when the fields the trigger selects differ, where 'value differs' is |a - b| > deadband.",
+    "outside": "the acceptance half of the statement (FilterType::from_filter: no verdict, see c25_filter.rs); percent deadbands; the sampling loop that keeps the last reported value (check_for_data_change needs an address space); non-numeric values under a deadband; NaN/infinite samples",
+    "assumptions": ["alloc::fmt::format returns an empty String", "paths through regex::Regex::new are cut", "DateTime values are two concrete instants"],
+    "tiers": {
+        "quick": {"groups": [{"filters": ["c25_q_"], "timeout": 900, "jobs": 8}], "bounds": "Double samples: all finite values; deadband: all finite non-negative values; loop-free"},
+        "thorough": {"groups": [{"filters": ["c25_q_", "c25_t_"], "timeout": 2400, "jobs": 8}], "bounds": "adds Int32 samples (all values) with integral deadband widths (all u32)"},
+    },
+}
+
+PROPS["C32"] = {
+    "module": "c32_range",
+    "level": MC,
+    "technique": "Kani/CBMC symbolic execution of UAString::substring / ByteString::substring over every valid 3-byte UTF-8 string / every byte string of up to 4 bytes and every byte range",
+    "kernels": ["UAString::substring", "ByteString::substring"],
+    "explanation": "Index-range reads of String and ByteString values: for every valid UTF-8 string of exactly 3 bytes (so 1-, 2- and 3-byte characters in every arrangement) and every byte string of 0..4 bytes, "
+                   "and every range min <= max over all usize values: no panic; data is returned exactly when the range starts inside the value (and, for strings, falls on character boundaries), and equals the addressed bytes clipped to the end.",
+    "outside": "everything else in the statement: access-level and type checks of the Write service, write-then-read through the address space, array index ranges (Vec<Variant> clone/drop glue: no verdict in 15 min), NumericRange parsing (regex)",
+    "assumptions": ["alloc::fmt::format returns an empty String", "strings are exactly 3 bytes of valid UTF-8 (stubs::utf8_valid, proved equal to core::str::from_utf8 by lemma_utf8_valid)"],
+    "tiers": tiers("c32", qbounds="string: 3 bytes; byte string: <= 4 bytes; range: all (min, max) with min <= max; unwind 6"),
+}
+
+PROPS["C36"] = {
+    "module": "c36_acks",
+    "level": MC,
+    "technique": "Kani/CBMC symbolic execution of the client's acknowledgement bookkeeping (handle_notification / take_acknowledgements / re_queue_acknowledgements) along concrete event histories with two publish requests in flight; subscription ids and sequence numbers symbolic",
+    "kernels": ["SubscriptionState::handle_notification", "SubscriptionState::take_acknowledgements", "SubscriptionState::re_queue_acknowledgements", "SubscriptionState::add_acknowledgement"],
+    "explanation": "The call protocol of Session::publish (take the pending acknowledgements into the request; on timeout or fault re-queue them) is transcribed in the harness with up to two requests in flight. Along each history "
+                   "(success/success, failure then resend, two in flight with the first failing while a newer acknowledgement was queued, both in flight carrying acknowledgements) and for all (subscription id, sequence number) pairs: "
+                   "at every point each received notification has exactly one acknowledgement (pending, in flight or delivered), and at the end each was delivered to the server exactly once and nothing else was.",
+    "outside": "Session::publish itself (async; a change there that stops re-queueing is invisible); symbolic event orders (16 GB); subscription deletion; more than two notifications per history",
+    "assumptions": STD_CUTS + ["the harness's World::send/succeed/fail is a faithful transcription of the acknowledgement handling in client/session/services/subscriptions/service.rs"],
+    "tiers": tiers("c36", qbounds="3 concrete histories of 6-8 events, 2 notifications with symbolic (u32, u32) identities; unwind 6", tbounds="adds a fourth history (both in-flight requests carry acknowledgements)"),
+}
